@@ -17,8 +17,35 @@ mod sut;
 
 use core::{Scenario, Tier};
 
+/// The allocator seam: the system allocator, plus a tick to the scheduler after every
+/// allocation (a yield point for sim threads inside an operation when the run's plan says so;
+/// one relaxed atomic load otherwise).
+struct YieldAlloc;
+unsafe impl std::alloc::GlobalAlloc for YieldAlloc {
+    unsafe fn alloc(&self, l: std::alloc::Layout) -> *mut u8 {
+        let p = std::alloc::System.alloc(l);
+        sched::alloc_tick();
+        p
+    }
+    unsafe fn alloc_zeroed(&self, l: std::alloc::Layout) -> *mut u8 {
+        let p = std::alloc::System.alloc_zeroed(l);
+        sched::alloc_tick();
+        p
+    }
+    unsafe fn realloc(&self, ptr: *mut u8, l: std::alloc::Layout, new_size: usize) -> *mut u8 {
+        let p = std::alloc::System.realloc(ptr, l, new_size);
+        sched::alloc_tick();
+        p
+    }
+    unsafe fn dealloc(&self, ptr: *mut u8, l: std::alloc::Layout) {
+        std::alloc::System.dealloc(ptr, l)
+    }
+}
+#[global_allocator]
+static GLOBAL: YieldAlloc = YieldAlloc;
+
 fn scenarios() -> Vec<&'static dyn Scenario> {
-    vec![&c20::C20Lib, &c20x::C20Fmt, &c20x::C20Cli, &c20x::C20Macro, &c11::C11Threads { xmod: false }, &c11::C11Threads { xmod: true }, &c08::C08Images, &c17::C17Corrupt, &c12::C12Deliveries, &c12::C12Subsets, &c12::C12XmodEnumeral, &c12::C12XmodName, &c10::C10Faults, &c10::C10XmodName]
+    vec![&c20::C20Lib, &c20x::C20Fmt, &c20x::C20Cli, &c20x::C20Macro, &c11::C11Threads { xmod: false, fine: false }, &c11::C11Threads { xmod: true, fine: false }, &c11::C11Threads { xmod: false, fine: true }, &c08::C08Images, &c17::C17Corrupt, &c12::C12Deliveries, &c12::C12Subsets, &c12::C12XmodEnumeral, &c12::C12XmodName, &c10::C10Faults, &c10::C10XmodName]
 }
 
 fn meta(prop: &str) -> (&'static str, Vec<&'static str>, serde_json::Value) {
@@ -107,7 +134,10 @@ fn main() {
                 std::process::exit(2);
             }
             let all = scenarios();
-            let mine: Vec<&'static dyn Scenario> = all.into_iter().filter(|s| s.property() == prop).collect();
+            // DSIM_ONLY=<scenario> restricts a run to one scenario (debugging aid; the evidence file
+            // then describes that partial run — registered commands never set it)
+            let only = std::env::var("DSIM_ONLY").ok();
+            let mine: Vec<&'static dyn Scenario> = all.into_iter().filter(|s| s.property() == prop && only.as_deref().map_or(true, |o| o == s.name())).collect();
             if mine.is_empty() {
                 eprintln!("HARNESS-ERROR: no scenario for property {prop}");
                 std::process::exit(2);
